@@ -400,9 +400,12 @@ static void exec_op(RunState &rs, int i) {
 		static const uint8_t nokey = 0;
 		if (kl == 0) kp = &nokey;
 		else if (i % 3 != 0) { uint8_t *p = edge_place(task, 0, kl); if (p) { memcpy(p, kp, kl); kp = p; } }
+		bool threw = false;
 		seam::lib_enter(&ctx);
-		randomx_init_cache(rs.C[o.c], kp, kl);
+		if (o.fault.empty()) randomx_init_cache(rs.C[o.c], kp, kl);
+		else { try { randomx_init_cache(rs.C[o.c], kp, kl); } catch (const std::exception &) { threw = true; } }
 		seam::lib_exit();
+		if (!o.fault.empty()) rs.rep->probes[threw ? "init_cache_threw" : "init_cache_fault_not_reached"]++;
 		res.executed = true; res.requests = ctx.requests;
 		break;
 	}
